@@ -391,10 +391,15 @@ func buildC12(tier string) *core.Plan {
 			ib := core.Clone(inner[i%ni]).(map[string]any)
 			ic, oc := all[(i/ni)%nall], all[i/(ni*nall)]
 			ib["$repeat"] = ic
-			inList := map[string]any{"a": "$repeat", "l": []any{"$repeat", core.Clone(ib), `$"t{$repeat}"`}, "o": "$repeat"}
+			inList := map[string]any{"a": "$repeat", "ab": `$"hi-{fixed}-{$repeat}"`, "fixed": "F", "l": []any{"$repeat", core.Clone(ib), `$"t{$repeat}"`}, "o": "$repeat"}
 			// keys sorting before and after the nested repeat use the OUTER index
-			inMap := map[string]any{"a": "$repeat", "m": map[string]any{`$"k{$repeat}"`: core.Clone(ib), "fixed": 1, "zz": `$"o{$repeat}"`}, "z": "$repeat"}
+			inMap := map[string]any{"a": "$repeat", "ab": `$"hi-{fixed}-{$repeat}"`, "fixed": "F", "m": map[string]any{`$"k{$repeat}"`: core.Clone(ib), "fixed": 1, "zz": `$"o{$repeat}"`}, "z": "$repeat"}
 			inBoth := map[string]any{"l": []any{map[string]any{"$repeat": 2, "a": "$repeat", "m": map[string]any{`$"k{$repeat}"`: core.Clone(ib)}, "w": []any{core.Clone(ib), "$repeat"}, "z": "$repeat"}}}
+			// without an outer repeat the outer variable is unbound: use variants free of it there
+			plainList := map[string]any{"ab": `$"hi-{fixed}"`, "fixed": "F", "l": []any{0, core.Clone(ib), `$"t{fixed}"`}}
+			plainMap := map[string]any{"ab": `$"hi-{fixed}"`, "fixed": "F", "m": map[string]any{`$"k{$repeat}"`: core.Clone(ib), "fixed": 1}}
+			c12Check(c, "hand-expansion-nested", plainList)
+			c12Check(c, "hand-expansion-nested", plainMap)
 			for _, d := range []map[string]any{inList, inMap, inBoth} {
 				c12Check(c, "hand-expansion-nested", core.Clone(d))
 				if _, isInt := oc.(int); isInt {
